@@ -13,7 +13,7 @@ def run(P, rep, tier):
     tu = P.unit(T)
     pu = P.unit(PP)
     cu = P.unit(CG)
-    need = {T: ('remove_backslash_newline', 'canonicalize_newline', 'add_line_numbers', 'tokenize', 'tokenize_file',
+    need = {T: ('remove_backslash_newline', 'tokenize', 'tokenize_file',
                 'error_tok', 'warn_tok', 'verror_at', 'error_at', 'new_file', 'tokenize_string_literal'),
             PP: ('line_macro', 'file_macro', 'read_line_marker', 'preprocess', 'preprocess2', 'expand_macro',
                  'new_num_token', 'new_str_token', 'paste'),
@@ -443,12 +443,25 @@ def r182(P, u, rep):
 
 # ------------------------------------------------------------------------------------------
 def r183(P, u, rep):
-    fn = 'add_line_numbers'
+    from ..lib_c18e import stamp_architecture, r183_running
+    rep.rule('R18.3', 'whatever computes Token.line_no for the tokens of tokenize() (today the pass add_line_numbers): the count starts at 1 at the first byte of the file\'s contents, '
+             'every newline of the contents between two tokens advances it by exactly one, whatever skips the bytes, and a token is stamped with the count at its first byte. '
+             'A pass over the contents: every byte up to and including the terminating NUL is visited once; '
+             'a token whose loc is the visited byte is stamped with the current count and the token cursor advances; the count grows by one exactly at a newline; '
+             'tokenize() calls it on the complete list including the EOF token. A counter kept while scanning: per iteration of the scanning loop the counter grows by the number of '
+             'newlines among the bytes the scan pointer moves over. error_at counts the same way', floor=14)
+    arch, fn = stamp_architecture(u)
+    if arch == 'running':
+        r183_running(P, u, rep, fn)
+        _r183_error_at(P, u, rep)
+        return
+    if arch != 'pass':
+        rep.undecided('R18.3', '%s:tokenize:line-numbering' % T, 'cannot tell what numbers the tokens of tokenize(): %s' % (
+            fn if arch == 'unclear' else 'no function reachable from tokenize() stores a computed Token.line_no'), where='%s:%d' % (T, u.fn('tokenize').line))
+        _r183_error_at(P, u, rep)
+        return
     W = '%s:%d' % (T, u.fn(fn).line)
     base = '%s:%s' % (T, fn)
-    rep.rule('R18.3', 'add_line_numbers: starting at line 1 at the first byte of the file, every byte up to and including the terminating NUL is visited once; '
-             'a token whose loc is the visited byte is stamped with the current count and the token cursor advances; the count grows by one exactly at a newline; '
-             'tokenize() calls it on the complete list including the EOF token; error_at counts the same way', floor=14)
     it = CutInterp(P, u, {'assume': None, 'track_stores': True})
     paths = it.explore(fn, lambda ctx: [Obj('Token', lazy=True, label='tok')])
     n_it = n_exit = n_stamp = 0
@@ -528,12 +541,13 @@ def r183(P, u, rep):
                 rep.ob('R18.3', base + ':one-byte-per-iteration', isinstance(dp, int) and dp == 1, 'the scan pointer advances by %s per iteration' % (dp,), where=W, facts=facts)
     if n_it < 4 or n_exit < 1 or n_stamp < 2:
         rep.undecided('R18.3', base + ':liveness', 'iterations %d, exits %d, stamping paths %d' % (n_it, n_exit, n_stamp), where=W)
-    _r183_tokenize(P, u, rep)
+    _r183_tokenize(P, u, rep, fn)
     _r183_error_at(P, u, rep)
 
 
-def _r183_tokenize(P, u, rep):
-    """tokenize(): current_file = file, scan from file->contents, EOF token appended, then add_line_numbers(head.next) on every returning path"""
+def _r183_tokenize(P, u, rep, aln='add_line_numbers'):
+    """tokenize(): current_file = file, scan from file->contents, EOF token appended, then add_line_numbers(head.next) on every returning path
+    (aln: the numbering pass, whatever its name)"""
     fn = u.fn('tokenize')
     W = '%s:%d' % (T, fn.line)
     body = u.body('tokenize')
@@ -544,7 +558,7 @@ def _r183_tokenize(P, u, rep):
         for c in s.calls('new_token'):
             if c.args() and c.args()[0].int_value() == u.enum_value('TK_EOF') and plain:
                 idx_eof = i
-        if s.calls('add_line_numbers') and plain:
+        if s.calls(aln) and plain:
             idx_aln = i
         x = s.strip() if hasattr(s, 'strip') else s
         if x.kind == 'BinaryOperator' and x.opcode == '=' and x.inner[0].strip().kind == 'DeclRefExpr' and x.inner[0].strip().ref_name == 'current_file':
@@ -555,16 +569,16 @@ def _r183_tokenize(P, u, rep):
     inner_rets = [r for r in fn.find('ReturnStmt') if r.parent is not body]
     ok = idx_eof is not None and idx_aln is not None and idx_eof < idx_aln and rets and idx_aln < rets[-1] and not inner_rets
     rep.ob('R18.3', '%s:tokenize:numbers-after-EOF-token' % T, bool(ok),
-           'tokenize() does not call add_line_numbers unconditionally after appending the EOF token and before returning (tokens would keep line_no 0)', where=W)
+           'tokenize() does not call the numbering pass unconditionally after appending the EOF token and before returning (tokens would keep line_no 0)', where=W)
     params = u.params('tokenize')
     okc = idx_cf is not None and params and cf_src == params[0].name and (idx_aln is None or idx_cf < idx_aln)
     rep.ob('R18.3', '%s:tokenize:current_file-is-the-scanned-file' % T, bool(okc),
            'tokenize() does not make its File argument the current file before scanning: new tokens and the line count would refer to another file', where=W)
     # add_line_numbers is called with the first real token
     if idx_aln is not None:
-        c = top[idx_aln].calls('add_line_numbers')[0]
+        c = top[idx_aln].calls(aln)[0]
         a = c.args()[0].src() if c.args() else ''
-        rep.ob('R18.3', '%s:tokenize:numbers-whole-list' % T, a.endswith('.next') and '->' not in a, 'add_line_numbers is applied to %s, not to the first token of the list' % a, where='%s:%d' % (T, c.line))
+        rep.ob('R18.3', '%s:tokenize:numbers-whole-list' % T, a.endswith('.next') and '->' not in a, '%s is applied to %s, not to the first token of the list' % (aln, a), where='%s:%d' % (T, c.line))
 
 
 def _r183_error_at(P, u, rep):
